@@ -1,8 +1,8 @@
-(* C17: clean_id, as translated from the source (kernel K41): the alias under which a local class is
+(* C17: clean_id, as translated from the source (kernel K42): the alias under which a local class is
    bound is identifier shaped, and the map is not injective (known finding clean-id-collision). *)
 From Coq Require Import List NArith Bool.
-From VerifGen Require Import K41.
-From Verif Require Import K41Proofs.
+From VerifGen Require Import K42.
+From Verif Require Import K42Proofs.
 Import ListNotations.
 Open Scope N_scope.
 
